@@ -163,8 +163,65 @@ func c13LongRun(c *mon.Ctx, r *rand.Rand) {
 	c.Count("long_runs")
 }
 
+// c13InPlace: the caller changes a long-lived datum in place between calls
+// (same map / slice object, same length, different contents); the evaluator
+// must see the datum as it is now.
+func c13InPlace(c *mon.Ctx, r *rand.Rand) {
+	n := []int{3, 31, 32, 33, 64, 100}[r.Intn(6)]
+	m := map[string]interface{}{}
+	typed := map[string]int{}
+	l := make([]interface{}, n)
+	for i := 0; i < n; i++ {
+		m[fmt.Sprintf("k%03d", i)] = i
+		typed[fmt.Sprintf("k%03d", i)] = i
+		l[i] = i
+	}
+	datum := map[string]interface{}{"m": m, "t": typed, "l": l}
+	exprs := []string{`any m as k, v { k == "fresh" and v == 77 }`, `all m as k { k != "fresh" }`, `any t as k, v { k == "fresh" }`, `fresh in m`, `m.fresh == 77`, `any l as x { x == 77 }`, `77 in l`, `all t as _, v { v != 77 }`, `m.k000 == 0`, `all m as k, _ { k != k000 }`}
+	text := exprs[r.Intn(len(exprs))]
+	used, err, pan, _ := createEval(text)
+	if pan != "" || err != nil {
+		return
+	}
+	step := func(label string) bool {
+		fresh, _, _, _ := createEval(text)
+		ou, of := evaluate(used, datum), evaluate(fresh, datum)
+		c.Evals(2)
+		if ou.Class() != of.Class() {
+			c.Violation(fmt.Sprintf("C13 history-dependent in-place-update used=%s fresh=%s", ou.Class(), of.Class()), "after the caller changed the datum in place a used evaluator answers differently from a fresh one",
+				map[string]any{"expression": text, "entries": n, "after": label, "used_evaluator": ou.String(), "fresh_evaluator": of.String()})
+			return false
+		}
+		return true
+	}
+	if !step("first call") {
+		return
+	}
+	// same objects, same lengths, different contents
+	delete(m, "k000")
+	m["fresh"] = 77
+	delete(typed, "k000")
+	typed["fresh"] = 77
+	l[n-1] = 77
+	if !step("one key replaced, one element overwritten") {
+		return
+	}
+	delete(m, "fresh")
+	m["k000"] = 0
+	delete(typed, "fresh")
+	typed["k000"] = 0
+	l[n-1] = n - 1
+	if !step("change undone") {
+		return
+	}
+	c.Count("in_place_update_histories")
+}
+
 func c13Run(c *mon.Ctx, idx int) {
 	r := c.RNG(idx)
+	if idx%25 == 1 {
+		c13InPlace(c, r)
+	}
 	if idx%20 == 0 {
 		c13SameRootType(c, r)
 	}
@@ -558,7 +615,7 @@ func init() {
 		NumCases:    func(tier string) int { return tierN(tier, 4000, 150000) },
 		Run:         c13Run,
 		Required: func(tier string) []string {
-			return []string{"histories", "long_runs", "same_root_type_histories", "evaluate_calls", "execute_calls", "calls_after_an_error_follow", "call_outcome:T", "call_outcome:F", "call_outcome:E", "history_len:0", "history_len:2", "history_len:3"}
+			return []string{"histories", "in_place_update_histories", "long_runs", "same_root_type_histories", "evaluate_calls", "execute_calls", "calls_after_an_error_follow", "call_outcome:T", "call_outcome:F", "call_outcome:E", "history_len:0", "history_len:2", "history_len:3"}
 		},
 	})
 	mon.Register(&mon.Prop{
